@@ -38,13 +38,13 @@ pub fn run(rep: &mut Report, tier: &str, seed: u64) {
     let n_programs = if tier == "thorough" { 2500 } else { 150 };
     let mut runner = Runner::new("C15");
     campaign(rep, &mut runner, seed, n_programs, 2, false,
-        &|pi, r| Opts { fragment: false, fault_pct: if pi % 5 == 4 { 100 } else { 0 }, max_stanzas: 4, allow_print: false, universal: r.chance(1, 2) },
+        &|pi, r| Opts { fragment: false, fault_pct: if pi % 5 == 4 { 100 } else { 0 }, max_stanzas: 4, allow_print: false, universal: r.chance(1, 2), probe: false, scoped_heavy: false },
         &mut |rep, runner, case, r, _pi| {
             let globals = crate::props::common::supply_globals(r, &case.loaded.program);
             for lazy in [false, true] {
                 let mode = if lazy { "lazy" } else { "strict" };
-                let plain = runner.check_mode(rep, case, &RunCfg { lazy, globals: globals.clone(), debug: None, cancel_at: None }, false, false);
-                let dbg = runner.check_mode(rep, case, &RunCfg { lazy, globals: globals.clone(), debug: Some((DBG.0.into(), DBG.1.into(), DBG.2.into())), cancel_at: None }, false, false);
+                let plain = runner.check_mode(rep, case, &RunCfg { lazy, globals: globals.clone(), outer_globals: vec![], debug: None, cancel_at: None }, false, false);
+                let dbg = runner.check_mode(rep, case, &RunCfg { lazy, globals: globals.clone(), outer_globals: vec![], debug: Some((DBG.0.into(), DBG.1.into(), DBG.2.into())), cancel_at: None }, false, false);
                 if plain.class == "panic" || dbg.class == "panic" {
                     continue;
                 }
